@@ -7,7 +7,7 @@
      C13_div_refuted_before_fix : a / b with b = 0 raised, the engine loop swallowed the
                                   exception and NO sample was sent for that timestamp. *)
 From Coq Require Import NArith QArith List.
-From Verif Require Import model.Common model.Formula proofs.FormulaFacts proofs.FormulaHO proofs.FormulaNaN.
+From Verif Require Import model.Common model.Formula proofs.FormulaFacts proofs.FormulaHO proofs.FormulaNaN proofs.FormulaSY.
 Import ListNotations.
 Local Open Scope Q_scope.
 
@@ -53,6 +53,15 @@ Theorem C13_missing_is_zero : forall rnd b env,
   run_round rnd (compile_hb true b) env = run_round rnd (compile_hb true b) (fun n => IVal (numval (env n))).
 Proof. exact hb_missing_is_zero. Qed.
 
+(* Formula strings (exact arithmetic): a sample for every round; None exactly when the ordinary
+   value of the expression is undefined, i.e. a needed input is missing on a stream not configured
+   as zero ([fetch_D false] = undefined) or a divisor is zero; with nones_are_zeros a missing input
+   is 0 ([fetch_D true] = Some 0). *)
+Theorem C13_string : forall nz e env,
+  outcome_equiv (run_round Num (compile nz (pp 0 e)) env)
+                (Emit (evalD (fun n => fetch_D nz (env n)) e)).
+Proof. exact string_round. Qed.
+
 (* non-vacuity: max with the SECOND operand missing, and a zero divisor, on concrete formulas *)
 Example C13_nonvacuous :
   let env := fun n => if N.eqb n 0%N then IVal 5 else if N.eqb n 1%N then INaN else IVal 0 in
@@ -74,3 +83,4 @@ Print Assumptions C13_always_emits.
 Print Assumptions C13_none_iff.
 Print Assumptions C13_value_otherwise.
 Print Assumptions C13_missing_is_zero.
+Print Assumptions C13_string.
